@@ -26,7 +26,10 @@ def run(cx, chk):
     chk.rule("C07.R2", "hit-probationary: node moves probationary -> protected; protected's overflow is demoted into probationary, never freed")
     chk.rule("C07.R3", "miss: put inserts the fresh node into probationary only (victim = probationary LRU end); get/get_mut change nothing")
     chk.rule("C07.R4", "put_protected: the key ends in protected and nowhere else")
+    chk.rule("C07.R5", "non-use operations (peek*, contains, len, per-segment accessors, ...) reach no mutation: they neither promote nor refresh")
+    chk.rule("C07.R6", "purge empties every retained list of the cache")
     for cfg, F in cx.cfgs():
+        composite.policy_hygiene(cx, chk, cfg, F, "SegmentedCache", "C07.R5", "C07.R6")
         for name, trait in (("put", api.CACHE_TRAIT), ("get", api.CACHE_TRAIT), ("get_mut", api.CACHE_TRAIT), ("put_protected", None)):
             f = composite.cache_method(F, ADT, name, trait)
             route(cx, chk, cfg, F, f, name)
